@@ -1745,6 +1745,9 @@ void CppCheck::getErrorMessages(ErrorLogger &errorlogger)
     CppCheck cppcheck(settings, supprs, errorlogger, nullptr, true, nullptr);
     cppcheck.purgedConfigurationMessage("","");
     cppcheck.tooManyConfigsError("",0U);
+    cppcheck.internalError("", "message");
+    for (const InternalError::Type type : {InternalError::AST, InternalError::UNKNOWN_MACRO, InternalError::LIMIT, InternalError::INSTANTIATION})
+        errorlogger.reportErr(ErrorMessage::fromInternalError(InternalError(nullptr, "message", type), nullptr, ""));
     // TODO: add functions to get remaining error messages
 
     Settings s;
